@@ -1,4 +1,5 @@
 import GoPlugin.Model.Resources
+import GoPlugin.Model.GrpcMux
 /-
 C18 — Graceful shutdown leaves no sockets, temp directories or goroutines behind.
 
@@ -414,5 +415,15 @@ theorem no_dir_without_runner (P : Params) (hP : P.socketDirRemovedIfNoRunner = 
   simp [dirLeftWithoutRunner, hP]
 
 theorem no_runner_witness : dirLeftWithoutRunner { goodParams with socketDirRemovedIfNoRunner := false } = true := by decide
+
+/-- **The knock loop ends with its listener**, however late its goroutine gets to run — in particular when the listener was
+closed at once.  (This is what the release condition of the go-site `grpcKnocks` above takes for granted.) -/
+theorem knock_loop_ends_with_listener (K : GrpcMux.KnockLoopParams) (hK : K.Good) (closedBeforeLoopRan : Bool) :
+    GrpcMux.knockLoopEnds K closedBeforeLoopRan = true := by
+  have h : K.usesAcceptSlot = true := hK
+  simp [GrpcMux.knockLoopEnds, h]
+
+/-- Witness: looking the slot up again by id, a loop whose listener was closed before it ran never ends -/
+theorem second_lookup_witness : GrpcMux.knockLoopEnds ⟨false⟩ true = false := by decide
 
 end GoPlugin.Props.C18
